@@ -201,8 +201,9 @@ def run(R, tier):
                 if not (c.trait and c.trait.endswith("parser::response::Formatter")):
                     continue
                 n_w += 1
-                owner = b.npath
-                in_fmt_impl, in_resp_data, in_unit, in_disp = role(b)
+                # a closure (or nested fn) writes on behalf of the function it is written in
+                owner = D.enclosing_fn(P, b.npath) if (b.kind == "Closure" or b.parent_fn) else b.npath
+                in_fmt_impl, in_resp_data, in_unit, in_disp = role(bodies.get(owner, b))
                 if c.method in OUT:
                     ok = writer_ok(owner)
                     R.check(ok, "R10.7", "%s<-%s" % (c.method, owner), "output written from a formatter / ResponseData impl (or its helper) / ResponseUnit", "%s writes response bytes (%s): only formatters, ResponseData impls (and helpers called only by them) and ResponseUnit may, so that a non-query unit contributes nothing" % (owner, c.method), where=c.line)
